@@ -220,8 +220,16 @@ Definition visit_ended (w : walk) (c : nat) (u : thread) : bool :=
   else
     match w_ph w with PInv => pc_is (t_pc u) RfLoad | PRef => pc_is (t_pc u) CClose || pc_is (t_pc u) Done end.
 
+Definition tgt_same (g : target) : bool := match g with SameFile => true | _ => false end.
+Definition tgt_eqb (a b : target) : bool :=
+  match a, b with
+  | NewFile, NewFile | SameFile, SameFile | NoFile, NoFile | FullFile, FullFile => true
+  | _, _ => false
+  end.
+Definition is_some {A} (o : option A) : bool := match o with Some _ => true | None => false end.
+
 (* one step of multi thread t *)
-Definition mstep_thread (ms : mshared) (t : mthread) : mshared * mthread :=
+Definition mstep_core (ms : mshared) (t : mthread) : mshared * mthread :=
   let k := m_k t in
   match m_pc t with
   | MIdle =>
@@ -251,7 +259,7 @@ Definition mstep_thread (ms : mshared) (t : mthread) : mshared * mthread :=
   | MRDbgOk => (ms, with_focus t MRun RRedo k)
   | MStore =>
       let full := match m_tgt t with FullFile => true | _ => false end in
-      let ok := forallb (fun u => pc_is (t_pc u) CStore) (m_main t)
+      let ok := forallb (fun u => pc_is (t_pc u) CStore && tgt_eqb (t_tgt u) (m_tgt t)) (m_main t)
                 && match m_tgt t with NewFile | FullFile => true | _ => false end
                 && forallb (fun c => Nat.eqb (length (c_cells c)) (ms_nf ms)) (ms_ctrs ms)
                 && Nat.eqb (length (m_main t)) (length (ms_ctrs ms)) in
@@ -307,7 +315,7 @@ Definition mstep_thread (ms : mshared) (t : mthread) : mshared * mthread :=
                  embedded thread, CClose of the SameFile changers the other counters see *)
               let u := gett t r c in
               let '(s', u') := step_thread np0 (proj c ms) u in
-              let ok := pc_is (t_pc u) GClose
+              let ok := pc_is (t_pc u) GClose && is_some (t_prev2 u)
                         && alli (fun j v => Nat.eqb j c || pc_is (t_pc v) CClose && onat_eqb (t_prev v) (t_prev2 u)) (m_nest t) in
               let t1 := with_nest t (mapi (fun j v => if Nat.eqb j c then v else thr_step ms j v) (m_nest t)) in
               (set_chk (inj c ms s') (negb ok), with_focus (with_walks (sett t1 r c u') MRun ws) MRun r c)
@@ -322,7 +330,7 @@ Definition mstep_thread (ms : mshared) (t : mthread) : mshared * mthread :=
         (* a second extension by the same thread: outside the model *)
         (set_bad ms true, with_mpc t MDone)
       else if grows then
-        let ok := ms_tight ms && alli (fun j v => Nat.eqb j c || pc_is (t_pc v) CStore) (m_nest t) in
+        let ok := ms_tight ms && alli (fun j v => Nat.eqb j c || pc_is (t_pc v) CStore && tgt_same (t_tgt v)) (m_nest t) in
         let t1 := with_nest t (mapi (fun j v => if Nat.eqb j c then v else thr_step ms j v) (m_nest t)) in
         (set_chk (inj c ms s') (negb ok),
          with_walks (with_grown (sett t1 r c u')) MHead (mkW [] [] PInv (Some (r, c)) :: m_walks t))
@@ -342,6 +350,35 @@ Definition mstep_thread (ms : mshared) (t : mthread) : mshared * mthread :=
         end
   | MDone => (ms, t)
   end.
+
+(* structural self checks: the embedded thread lists have one entry per counter,
+   the focus is a counter of this file (the redo thread only on the thread's own
+   counter), and a thread that has returned has no embedded thread in flight *)
+Definition quietb (u : thread) : bool :=
+  match t_pc u with Done | CIdle | CPre | CStore => true | _ => false end.
+Definition lens_ok (ms : mshared) (t : mthread) : bool :=
+  Nat.eqb (length (m_main t)) (length (ms_ctrs ms)) && Nat.eqb (length (m_nest t)) (length (ms_ctrs ms)).
+Definition rc_ok (ms : mshared) (t : mthread) (r : role) (c : nat) : bool :=
+  Nat.ltb c (length (ms_ctrs ms)) && match r with RRedo => m_isadd t && Nat.eqb c (m_k t) | _ => true end.
+Definition focus_ok (ms : mshared) (t : mthread) : bool :=
+  match m_pc t with
+  | MRun => rc_ok ms t (m_role t) (m_c t)
+  | MClose =>
+      match m_walks t with
+      | w :: _ => match w_own w with Some (r, c) => rc_ok ms t r c | None => true end
+      | [] => true
+      end
+  | _ => true
+  end.
+Definition done_ok (t : mthread) : bool :=
+  match m_pc t with
+  | MDone => forallb quietb (m_main t) && forallb quietb (m_nest t) && quietb (m_redo t)
+  | _ => true
+  end.
+
+Definition mstep_thread (ms : mshared) (t : mthread) : mshared * mthread :=
+  let r := mstep_core ms t in
+  (set_chk (fst r) (negb (lens_ok ms t && focus_ok ms t && done_ok (snd r))), snd r).
 
 Definition mstate := (mshared * list mthread)%type.
 
